@@ -205,7 +205,9 @@ def r2(run):
         sites.append((b, c, c.arg(3), "read_sync"))
     for (b, c) in C.callers_of(facts, C.HEAD):
         sites.append((b, c, c.arg(2), "head"))
-    run.floor("read_sync / head call sites", len(sites), 4)
+    # floors by role: the script commands' read_sync / head and the HTTP head route must be visible (Store::new's own scan is incidental)
+    run.floor("read_sync call sites in script commands", len([1 for (b, c, a, w) in sites if w == "read_sync" and "nu::commands" in b.def_]), 1)
+    run.floor("head call sites (HTTP route + script command)", len([1 for (b, c, a, w) in sites if w == "head"]), 2)
     for (b, c, arg, what) in sites:
         fn = facts.enclosing_fn(b)
         run.touch(b)
